@@ -296,7 +296,8 @@ def search(ctx):
         # --- composites
         m = int(rng.integers(1, 7))
         cs = rng.normal(size=(m, 3)) * 4
-        members = [Sphere(n=1.5, r=0.1, center=c) for c in cs]
+        # members of unequal size: the pivot of a rotation is the mean of the member CENTRES, whatever the members' radii
+        members = [Sphere(n=1.5, r=float(rng.choice([0.1, 0.1, 0.35, 0.8, 0.02])), center=c) for c in cs]
         kindc = "spheres"
         if i < 3 or i % 7 == 6:
             cls = [Ellipsoid, Spheroid, Cylinder][i % 3]
